@@ -1,4 +1,5 @@
 import PytypeModel.Proofs.SolverWF
+import PytypeModel.Typegraph.InvalidateSpec
 
 /-! # C08 — solver answers do not depend on what was asked or built before
 
@@ -198,5 +199,33 @@ example : let s := (PState.init []).run (condHistory.take 8)
 set_option maxRecDepth 100000 in
 example : let s := (PState.init []).run (condHistory.take 8)
     (s.step (.connectTo 0 1)).memo.isSome = true ∧ (s.step (.connectTo 0 1)).g = s.g := by decide +kernel
+
+/-! ### the invalidation table is the one in the C++ text of the tree under test -/
+
+/-- the table regenerated from typegraph.cc / typegraph.h / cfg.cc on this run (which functions call
+`InvalidateSolver()`, under which guard, which write solver-visible state, who calls the helpers) is the table
+the model was written against; every textual call was attributed to a function body. -/
+theorem invalidate_sites_as_modelled :
+    PytypeModel.Generated.InvalidateSites.sites = InvalidateSpec.expected ∧
+    PytypeModel.Generated.InvalidateSites.attributedCalls = PytypeModel.Generated.InvalidateSites.totalCalls ∧
+    InvalidateSpec.covered PytypeModel.Generated.InvalidateSites.sites = true := by
+  decide +kernel
+
+/-- the model's primitives invalidate exactly as the rows say: `NewCFGNode`, `AddOrigin`, `set_condition` always;
+`ConnectTo` unless the edge is a self edge or a duplicate (then nothing changes at all);
+`FindOrAddBindingHelper` only when the binding is new (otherwise nothing changes at all). -/
+theorem model_invalidation_as_specified (s : PState) :
+    (∀ c, (s.newNode c).memo = none) ∧
+    (∀ b n ss, (s.addOrigin b n ss).memo = none) ∧
+    (∀ n c, (s.setCond n c).memo = none) ∧
+    (∀ a b, s.g.edgeIsNew a b = true → (s.connectTo a b).memo = none) ∧
+    (∀ a b, s.g.edgeIsNew a b = false → s.connectTo a b = s) ∧
+    (∀ v d, s.g.findBinding v d = none → (s.findOrAddBinding v d).1.memo = none) ∧
+    (∀ v d b, s.g.findBinding v d = some b → s.findOrAddBinding v d = (s, b)) := by
+  refine ⟨fun _ => rfl, fun _ _ _ => rfl, fun _ _ => rfl, ?_, ?_, ?_, ?_⟩
+  · intro a b h; simp [PState.connectTo, h, PState.invalidate]
+  · intro a b h; simp [PState.connectTo, h]
+  · intro v d h; simp [PState.findOrAddBinding, h, PState.invalidate]
+  · intro v d b h; simp [PState.findOrAddBinding, h]
 
 end PytypeModel.Props.C08
